@@ -35,16 +35,16 @@ var solvers = []solverSpec{
 }
 
 var workDir string
+var workDirOnce sync.Once
 
 func initWorkDir() {
-	if workDir != "" {
-		return
-	}
-	d, err := os.MkdirTemp("", "sctpvc-")
-	if err != nil {
-		panic(err)
-	}
-	workDir = d
+	workDirOnce.Do(func() {
+		d, err := os.MkdirTemp("", "sctpvc-")
+		if err != nil {
+			panic(err)
+		}
+		workDir = d
+	})
 }
 
 func cleanupWorkDir() {
